@@ -61,6 +61,8 @@ func checkC01(c *Ctx) {
 	requestAllocatedPerRequest(c, ep, "R01i")
 	r.Rule("R01k", "a query parameter is left unbound by the server only when its key is absent from the URL (shared with C02/R02g): an empty value the client sent reaches the handler", 2)
 	c02Presence(c, ep, "R01k")
+	r.Rule("R01m", "each string the server's URL binders convert is an element of the URL's own value list, never a re-decoded or otherwise derived string (shared with C02/R02m): the handler receives the value the client escaped", 3)
+	urlValueProvenance(c, ep, "R01m")
 	r.Rule("R01l", "Go client and Go server publish the same path for every configuration of the grid, also for method paths written without a leading slash (shared with C03/R03a)", 6)
 	clientServerPathAgreement(c, "R01l")
 	sconsts := map[string]string{}
